@@ -139,23 +139,38 @@ def eval_atom(prog, body, a, r):
                 return (r["nf"] == "none") == pol
             if nm.endswith("BTreeMap::contains_key") and _votes_field(t[2][0]) == "notar_fallback" and K.mentions_call(t[2][1], "block_hash") and K.mentions_arg(body, t[2][1], 2):
                 return (r["nf"] == "this") == pol
-            if nm.endswith("Option::is_some_and"):
+            if nm.endswith("Option::is_some_and") or nm.endswith("Option::is_none_or"):
                 f = _votes_field(t[2][0])
                 cl = [x for x in mir.walk(t[2][1]) if isinstance(x, tuple) and x and x[0] == "closure"]
-                if f == "notar" and cl and _closure_compares_hash(prog, cl[0][1]):
-                    return (r["notar"] == "same") == pol
+                cmpk = _closure_compares_hash(prog, cl[0][1]) if cl else None
+                if f == "notar" and cmpk:
+                    want = "same" if cmpk == "eq" else "other"
+                    if nm.endswith("is_some_and"):
+                        return (r["notar"] == want) == pol
+                    return (r["notar"] == "none" or r["notar"] == want) == pol
         raise Unknown("bool atom " + mir.show(t))
     raise Unknown("atom kind %s" % pred)
 
 
 def _closure_compares_hash(prog, d):
+    """'eq' / 'ne' when the closure's result is that comparison of two block hashes, else None"""
     b = prog.bodies.get(d)
     if not b:
-        return False
+        return None
     for c in b.calls():
-        if c.name.rsplit("::", 1)[-1] == "eq" and all(K.mentions_call(b.operand_term(a), "block_hash") for a in c.args):
-            return True
-    return False
+        nm = c.name.rsplit("::", 1)[-1]
+        if nm in ("eq", "ne") and all(K.mentions_call(b.operand_term(a), "block_hash") for a in c.args) and c.dst["l"] == 0:
+            return nm
+    # result computed through a temporary / negation: use the closure's own truth table
+    try:
+        tt = paths.bool_truth_table(b, prog)
+    except Exception:
+        tt = None
+    if tt is not None and len(tt[0]) == 1:
+        t0 = tt[0][0]
+        if isinstance(t0, tuple) and t0 and t0[0] == "eq" and all(K.mentions_call(x, "block_hash") for x in t0[1]):
+            return "eq" if tt[1].get((True,)) else "ne"
+    return None
 
 
 def outcome(prog, body, ret, r, enum_suffix):
